@@ -210,6 +210,9 @@ func rtVectorJSON(src ad.ConstVector, s0 snap.Vec, t gen.ElemType, storage strin
 		return f
 	}
 	f = compareVector(s0, get(), t, o, storage == gen.Sparse)
+	if f == nil {
+		f = useCheckVector(s0, get(), t, storage, o, r.Uint64())
+	}
 	if f != nil {
 		f.Doc = clip(string(data), 1500)
 	}
@@ -226,6 +229,9 @@ func rtMatrixJSON(src ad.ConstMatrix, s0 snap.Mat, t gen.ElemType, storage strin
 		return f
 	}
 	f = compareMatrix(s0, get(), t, o, storage == gen.Sparse)
+	if f == nil {
+		f = useCheckMatrix(s0, get(), t, storage, o, r.Uint64())
+	}
 	if f != nil {
 		f.Doc = clip(string(data), 1500)
 	}
@@ -266,6 +272,9 @@ func rtVectorTable(src ad.Vector, s0 snap.Vec, t gen.ElemType, storage string, d
 		return f
 	}
 	f = compareVector(s0, get(), t, o, storage == gen.Sparse)
+	if f == nil {
+		f = useCheckVector(s0, get(), t, storage, o, r.Uint64())
+	}
 	if f != nil {
 		f.Doc = doc
 	}
@@ -279,6 +288,9 @@ func rtMatrixTable(src ad.Matrix, s0 snap.Mat, t gen.ElemType, storage string, d
 		return f
 	}
 	f = compareMatrix(s0, get(), t, o, storage == gen.Sparse)
+	if f == nil {
+		f = useCheckMatrix(s0, get(), t, storage, o, r.Uint64())
+	}
 	if f != nil {
 		f.Doc = doc
 	}
